@@ -18,7 +18,7 @@
 (***************************************************************************)
 EXTENDS Lines, TLC, Json
 
-CONSTANTS MaxLines, AlphabetSel      \* AlphabetSel: the indices of the alphabet that may be used
+CONSTANTS MinLines, MaxLines, AlphabetSel      \* AlphabetSel: the indices of the alphabet that may be used
 
 VARIABLES L, timing, dist, pc, day, si, pool, claimed, hold, rem, legs, err
 avars == <<L, timing, dist, pc, day, si, pool, claimed, hold, rem, legs, err>>
@@ -44,16 +44,23 @@ Alphabet == <<
   Ln(3, "BBB", "BUY", R(1), 7, 0),
   Ln(3, "AAA", "CAPRETURN", Zero, 3, 1),
   Ln(2, "AAA", "ACC", Zero, 2, 0),
-  Ln(4, "AAA", "SELL", R(2), 11, 1) >>
+  Ln(4, "AAA", "SELL", R(2), 11, 1),
+  Ln(2, "AAA", "SPLIT", R(3), 0, 0),          \* a second reorganisation on day 2 (18)
+  Ln(3, "AAA", "BUY", R(1), 11, 0),           \* a second fill on day 3 (19)
+  Ln(3, "BBB", "SPLIT", R(2), 0, 0) >>        \* the other security is reorganised inside AAA's 30-day window (20)
 
 MC_LDayNo == <<0, 1, 31, 32>>
 MC_LSecs == <<"AAA", "BBB">>
 MC_AlphaAll == 1..Len(Alphabet)
 MC_AlphaCore == {1, 2, 3, 4, 6, 7, 8, 10, 12, 15, 16}
+\* separated fills on two different days, each with a sale between them: all 720 orders of exactly these six lines
+MC_AlphaFills == {2, 3, 6, 4, 19, 8}
+\* a sale, two reorganisations on the next day, a repurchase inside the window, a holding bought before
+MC_AlphaSplits == {1, 6, 10, 18, 4, 11, 20}
 Injective(f) == \A i, j \in DOMAIN f : i # j => f[i] # f[j]
 
 Init ==
-  /\ \E n \in 1..MaxLines : \E f \in [1..n -> AlphabetSel] :
+  /\ \E n \in MinLines..MaxLines : \E f \in [1..n -> AlphabetSel] :
         Injective(f) /\ LInit([i \in 1..n |-> Alphabet[f[i]]])
   /\ L = [s \in SecSet |-> [d \in DaysL |-> A!NoCell]]
   /\ timing = "end" /\ dist = [s \in SecSet |-> [e \in DaysL |-> [a \in DaysL |-> Zero]]]
